@@ -60,6 +60,11 @@ def run(repo, rep, tier):
                       "template-derived data")
     rep.rule("R11.4", "every TemplateError leaving _cook carries the "
                       "template's file name; TemplateError coerces its token")
+    rep.rule("R11.5", "necessary conditions of 'a valid template is never "
+                      "rejected': statement regexes accept multi-line "
+                      "expressions; index lookups on compile-time stacks "
+                      "are guarded")
+    _accepts(repo, rep)
     split_ok = _algebra(repo, rep)
     _helpers(repo, rep)
     _raise_sites(repo, rep, split_ok)
@@ -215,6 +220,64 @@ def _algebra(repo, rep):
     # the slice start of __getitem__: negative starts are not position
     # faithful -> callers on error paths must not use them (checked in R11.2)
     return split_ok
+
+
+def _accepts(repo, rep):
+    from .. import rx
+    for name in ("DEFINE_RE", "SUBST_RE", "ATTR_RE"):
+        rc = repo.const("chameleon.tal", name)
+        site = "chameleon.tal." + name
+        if not hasattr(rc, "pattern"):
+            raise AnalysisError("%s is not a compiled regex" % site)
+        tree = rx.parse(rc.pattern, rc.flags)
+        flags = tree.state.flags | rc.flags
+        data = list(tree)
+        tail_any = False
+        # the expression group: '(.*)' right before \Z
+        if len(data) >= 2 and data[-1][0] is rx.C.AT and \
+                data[-2][0] is rx.C.SUBPATTERN:
+            body = list(data[-2][1][3])
+            tail_any = any(op in (rx.C.MAX_REPEAT, rx.C.MIN_REPEAT) and
+                           len(av[2]) == 1 and av[2][0][0] is rx.C.ANY
+                           for op, av in body)
+        rep.check(tail_any, "R11.5", site, "the statement pattern ends with "
+                  "the expression group '(.*)' anchored at the end",
+                  construct="expr-group:" + name, detail=rc.pattern[-30:])
+        rep.check(bool(flags & 16), "R11.5", site,
+                  "'.' in the expression group matches line breaks (DOTALL): "
+                  "an expression continued on the next line is not rejected",
+                  construct="dotall:" + name,
+                  detail="flags=%d pattern=%s" % (flags, rc.pattern[:40]))
+    # compile-time stack lookups with a computed index are guarded
+    ve = repo.func("chameleon.zpt.program.MacroProgram.visit_element")
+    n = 0
+    for sub in ast.walk(ve.node):
+        if isinstance(sub, ast.Subscript) and isinstance(sub.ctx, ast.Load) \
+                and src(sub.value).startswith("self._") and \
+                isinstance(sub.slice, ast.Name):
+            n += 1
+            guarded = False
+            p = getattr(sub, "_parent", None)
+            while p is not None and p is not ve.node:
+                if isinstance(p, ast.Try) and any(
+                        h.type is not None and
+                        src(h.type) in ("IndexError", "LookupError",
+                                        "(IndexError, KeyError)")
+                        for h in p.handlers) and any(
+                        sub in list(ast.walk(b)) for b in p.body):
+                    guarded = True
+                p = getattr(p, "_parent", None)
+            later_same = [x for x in ast.walk(ve.node)
+                          if isinstance(x, ast.Subscript) and x is not sub
+                          and src(x) == src(sub) and x.lineno < sub.lineno]
+            rep.check(guarded or bool(later_same), "R11.5", ve.qualname,
+                      "%s (index computed from the element's statements) is "
+                      "looked up under 'except IndexError' so that a missing "
+                      "entry becomes a LanguageError, not a bare IndexError"
+                      % src(sub), construct="unguarded-index:" + src(sub),
+                      where=L.where(ve, sub.lineno))
+    rep.check(n >= 1, "R11.5", ve.qualname, "computed stack lookups were "
+              "found", construct="index-lookups", detail=str(n))
 
 
 def _helpers(repo, rep):
